@@ -24,7 +24,7 @@ RULE = ('the family of signatures {0-3 positional-or-keyword params x default su
         'positional arguments x every subset of keyword names x one unknown keyword; injected for each '
         'parameter (list and plain-string form), for every pair of parameters, and together with expected; expected '
         'for a new name with and without default (list, pairs, mapping) and for two new names; plus families with '
-        'stacked wrappers (__wrapped__ of the outer one is the inner one), the wrapped function re-inspected afterwards, equal-but-distinct defaults, falsy defaults (None, 0, "", False, ()), and arbitrary objects as defaults and '
+        'stacked wrappers (__wrapped__ of the outer one is the inner one), update_dict=False, one function wrapped again after its __defaults__/__kwdefaults__/__annotations__ were re-assigned, the library\'s own NO_DEFAULT marker (and Ellipsis, NotImplemented) as default values, the wrapped function re-inspected afterwards, equal-but-distinct defaults, falsy defaults (None, 0, "", False, ()), and arbitrary objects as defaults and '
         'annotations (NaN, unhashable, no usable repr, forward-reference strings; identity of mutable defaults); '
         'distinct = distinct (signature, call shape) pairs evaluated')
 ASSUMPTIONS = [
@@ -70,7 +70,7 @@ def all_signatures():
     # falsy defaults (None, 0, '', False, ()) - "is there a default?" decided by truth value goes wrong here - and
     # arbitrary objects as defaults / annotations (no usable repr, NaN, unhashable, strings that are not
     # identifiers), with other names for the * and ** parameters
-    for style in ('falsy', 'objects'):
+    for style in ('falsy', 'objects', 'sentinels'):
         for npos in (1, 2, 3):
             for ndef in range(1, npos + 1):
                 for varargs in (False, True):
@@ -83,6 +83,8 @@ def all_signatures():
 EQ_DEFAULTS = {'a': '1.0', 'b': '1', 'c': 'True', 'k1': '1', 'k2': '1.0'}
 FALSY_DEFAULTS = {'a': 'None', 'b': '0', 'c': "''", 'k1': 'False', 'k2': '()'}
 OBJ_DEFAULTS = {'a': 'W', 'b': 'NAN', 'c': 'LAM', 'k1': 'LST', 'k2': 'DCT'}
+# the library's own public "no default" marker and its relatives, used as ordinary default VALUES by the wrapped function
+SENT_DEFAULTS = {'a': 'NO_DEFAULT', 'b': 'NO_DEFAULT', 'c': 'Ellipsis', 'k1': 'NO_DEFAULT', 'k2': 'NotImplemented'}
 OBJ_ANN = {'a': 'W', 'b': "'Forward'", 'c': 'typing.List[int]', 'k1': 'typing.Optional[int]', 'k2': "'x y'",
            'args': 'W', 'kw': "'Kw'"}
 
@@ -101,7 +103,7 @@ OBJ_NS = {'W': _Weird(), 'NAN': float('nan'), 'LAM': (lambda: 1), 'LST': [], 'DC
 def source(sig, name='target'):
     if sig.get('style'):
         objs = sig['style'] == 'objects'
-        dflt = OBJ_DEFAULTS if objs else FALSY_DEFAULTS
+        dflt = OBJ_DEFAULTS if objs else SENT_DEFAULTS if sig['style'] == 'sentinels' else FALSY_DEFAULTS
         star, dstar = 'rest', 'options'
 
         def a(n, key=None):
@@ -163,6 +165,8 @@ def source(sig, name='target'):
 
 def make(sig):
     ns = dict(OBJ_NS)
+    ns['NO_DEFAULT'] = getattr(common.load('funcutils'), 'NO_DEFAULT', None)
+    ns['EMPTY'] = inspect.Parameter.empty
     exec(source(sig), ns)
     f = ns['target']
     f.__module__ = 'verif_generated_module'
@@ -328,6 +332,51 @@ def check(c, st):
                     '%s with injected=%r -> %s' % (source(sig).splitlines()[0], p.name,
                                                    inspect.signature(wi, follow_wrapped=False)))
         st.count('injected_checks')
+    # update_dict=False: no function attributes are copied, everything else is as before (incl. __wrapped__)
+    st.monitor_evals += 1
+    try:
+        wn = fu.wraps(f, update_dict=False)(passthrough)
+    except Exception as e:
+        return ('wraps-raised:update_dict=False:%s' % type(e).__name__, 'wraps(f, update_dict=False) raised %r' % (e,))
+    d = sigdiff(sf, inspect.signature(wn, follow_wrapped=False))
+    if d or getattr(wn, '__wrapped__', None) is not f or wn.__name__ != f.__name__ or wn.__doc__ != f.__doc__ \
+            or wn.__module__ != f.__module__:
+        return ('update_dict=False:%s' % (d or ('__wrapped__' if getattr(wn, '__wrapped__', None) is not f else 'metadata')),
+                '%s with update_dict=False -> signature %s, __wrapped__ %r' % (
+                    source(sig).splitlines()[0], inspect.signature(wn, follow_wrapped=False), getattr(wn, '__wrapped__', None)))
+    for npositional, subset, unknown in shapes[:6]:
+        args = tuple('p%d' % i for i in range(npositional))
+        kwargs = {n: 'kw_' + n for n in subset}
+        if call(f, is_async, args, kwargs) != call(wn, is_async, args, kwargs):
+            return ('call:update_dict=False', '%s: args=%r kwargs=%r differ' % (source(sig).splitlines()[0], args, kwargs))
+    # the same function object wrapped again after its defaults / annotations were re-assigned (plugins patching
+    # __defaults__, decorators filling in annotations): the new wrapper follows what the function is NOW
+    if not sig.get('style') and (sig['ndef'] or any(sig['kwodef'])) and not is_async:
+        g = make(sig)
+        if is_async:
+            pass
+        def gpass(*a, **kw):
+            return g(*a, **kw)
+        st.monitor_evals += 1
+        try:
+            fu.wraps(g)(gpass)
+            if g.__defaults__:
+                g.__defaults__ = tuple('re-' + str(x) for x in g.__defaults__)
+            if g.__kwdefaults__:
+                g.__kwdefaults__ = dict((k, 're-' + str(v)) for k, v in g.__kwdefaults__.items())
+            g.__annotations__ = dict(g.__annotations__, **{POS[0] if sig['npos'] else 'return': 'bytes'})
+            w3 = fu.wraps(g)(gpass)
+        except Exception as e:
+            return ('wraps-raised:rewrap:%s' % type(e).__name__, 'second wraps() of one function raised %r' % (e,))
+        d = sigdiff(inspect.signature(g), inspect.signature(w3, follow_wrapped=False))
+        if d:
+            return ('signature:%s:rewrapped-after-reassignment' % d, '%s had its __defaults__/__kwdefaults__/__annotations__ '
+                    're-assigned to %s; wrapping it again gives %s' % (source(sig).splitlines()[0], inspect.signature(g),
+                                                                        inspect.signature(w3, follow_wrapped=False)))
+        if call(g, False, (), {n_: 'v' for n_ in POS[:sig['npos'] - sig['ndef']] + [k_ for k_, dd in zip(KWO, sig['kwodef']) if not dd]}) != \
+                call(w3, False, (), {n_: 'v' for n_ in POS[:sig['npos'] - sig['ndef']] + [k_ for k_, dd in zip(KWO, sig['kwodef']) if not dd]}):
+            return ('call:rewrapped-after-reassignment', '%s: the re-made wrapper forwards other defaults than the function now has'
+                    % source(sig).splitlines()[0])
     # injected given as a plain string, several parameters injected at once, injected together with expected
     named = [q for q in params if q.kind in (q.POSITIONAL_OR_KEYWORD, q.KEYWORD_ONLY)]
 
